@@ -9,6 +9,7 @@ import shutil
 import subprocess
 import sys
 import tempfile
+import time
 from typing import Iterable, Optional
 
 from .index import AnalysisError, ClassInfo, FuncInfo, Index, dotted
@@ -80,20 +81,31 @@ def load(idx: Index) -> Typed:
                     shutil.rmtree(tmp, ignore_errors=True)
             else:
                 _build(idx.repo, out)
-            # keep the cache small
+            # keep the cache small: only files that no concurrent run can still need (older than two hours) are pruned
+            now = time.time()
             olds = sorted((os.path.join(CACHE, x) for x in os.listdir(CACHE) if x.startswith('l1-') and x.endswith('.json')),
-                          key=os.path.getmtime)
-            for x in olds[:-40]:
+                          key=lambda x: _mtime(x))
+            for x in olds[:-60]:
+                if now - _mtime(x) < 7200:
+                    continue
                 for y in (x, x[:-5] + '.lock'):
                     try:
                         os.remove(y)
                     except OSError:
                         pass
+        with open(out) as fp:          # read under the lock: a concurrent prune cannot take the file away in between
+            data = json.load(fp)
     finally:
         fcntl.flock(lock, fcntl.LOCK_UN)
         lock.close()
-    with open(out) as fp:
-        return Typed(idx, json.load(fp))
+    return Typed(idx, data)
+
+
+def _mtime(path: str) -> float:
+    try:
+        return os.path.getmtime(path)
+    except OSError:
+        return 0.0
 
 
 # ------------------------------------------------------------------------------------------ L2 call graph
